@@ -113,6 +113,11 @@ pub fn run(ctx: &Ctx) -> Report {
             programs.push((format!("operand_stack_boundary:{}", cell), s, false));
         }
     }
+    // C13's probe batches (indices and slice bounds of every size incl. +-2^63, +-inf, NaN; string methods):
+    // every sixteenth batch (every fourth in the thorough tier)
+    for (i, s) in crate::c13::batch_sources(if thorough { 4 } else { 16 }).into_iter().enumerate() {
+        programs.push((format!("index_and_string_probes:{}", i), s, false));
+    }
     let n_programs = programs.len();
     // per worker: one runner per configuration + the checked hooks runner as the gate
     let queue = Arc::new(Mutex::new(programs.into_iter()));
@@ -220,7 +225,7 @@ pub fn run(ctx: &Ctx) -> Report {
     report.cov("traces_validated_against_impl", json!(runs));
     report.cov("distinct_nontrivial", json!(outcomes.len()));
     report.cov("exhaustive", json!(true));
-    report.cov("rule", json!("configurations: the dev profile and the release profile with each subset of {safe_active_fiber, safe_class_lookup, safe_stack, safe_vm_opcodes, debug_stress_gc} (quick: none and all; thorough: all 32, plus dev with all switches), built from /repo's working tree WITHOUT the verification hooks; programs: every repository script (with its module table; scripts calling clock() excluded) and every 4th/2nd program of the large families of the C05/C06/C07/C08/C18 corpora and every program of their small families (up to 400 programs), C01's heap-shape programs, the loop-churn family and C02's operand-stack boundary sweep (the stack filled exactly, one short, one over, ...: every 3rd program plus all of depth 31 in the quick tier); each program runs on every configuration and the printed lines and outcome (addresses normalised) must be identical. Only programs that exhaust the hooks runner's instruction budget are left out. distinct_nontrivial = distinct observed outcomes."));
+    report.cov("rule", json!("configurations: the dev profile and the release profile with each subset of {safe_active_fiber, safe_class_lookup, safe_stack, safe_vm_opcodes, debug_stress_gc} (quick: none and all; thorough: all 32, plus dev with all switches), built from /repo's working tree WITHOUT the verification hooks; programs: every repository script (with its module table; scripts calling clock() excluded) and every 4th/2nd program of the large families of the C05/C06/C07/C08/C18 corpora and every program of their small families (up to 400 programs), C01's heap-shape programs, the loop-churn family, every 16th/4th of C13's probe batches (indices and slice bounds up to and beyond the machine's integer limits, string methods) and C02's operand-stack boundary sweep (the stack filled exactly, one short, one over, ...: every 3rd program plus all of depth 31 in the quick tier); each program runs on every configuration and the printed lines and outcome (addresses normalised) must be identical. Only programs that exhaust the hooks runner's instruction budget are left out. distinct_nontrivial = distinct observed outcomes."));
     report.cov("bounds", json!({"configurations": cfgs.iter().map(|c| c.0.clone()).collect::<Vec<_>>(), "programs": n_programs}));
     report.cov("programs_compared", json!(compared));
     report.cov("programs_excluded_by_gate", json!(gated));
